@@ -137,7 +137,7 @@ func runWorker(bin string, job Job, scratch string, stuckAfter, hardLimit time.D
 	// reserves terabytes of address space).
 	wargs := []string{bin, "-test.run", "^TestWorker$", "-test.cpu", testCPU, "-test.timeout", "0", "-test.count", "1"}
 	cmd := exec.Command(wargs[0], wargs[1:]...)
-	if !strings.Contains(bin, ".race.") {
+	if !strings.Contains(bin, ".race.") && envInt("FALCOSIM_MEM_MB", 6144) > 0 {
 		cmd = exec.Command("prlimit", append([]string{"--as=" + strconv.FormatInt(int64(envInt("FALCOSIM_MEM_MB", 6144))<<20, 10)}, wargs...)...)
 	}
 	cmd.Env = append(os.Environ(), "FALCOSIM_JOB="+jobPath, "FALCOSIM_REPO="+repoDir)
@@ -375,6 +375,7 @@ func runSimCheck(id, tier string, seed uint64, p propInfo, scratch string, start
 	}
 	sort.Strings(keys)
 	newCount := 0
+	unconfirmed := 0
 	for _, k := range keys {
 		f := m.found[k]
 		if e := kf.known(id, k); e != nil {
@@ -413,8 +414,13 @@ func runSimCheck(id, tier string, seed uint64, p propInfo, scratch string, start
 			}
 		}
 		if !confirmed {
-			fmt.Fprintf(os.Stderr, "falcosim: violation %s did not reproduce on replay in a fresh process — machinery trouble, not reported\n", k)
-			return 2
+			// A violation that depends on what earlier cases left behind in the
+			// process (e.g. sync.Pool contents) does not replay from its tape
+			// alone. It is never reported as a VIOLATION; if nothing else
+			// reproduces either, the run ends as machinery trouble (exit 2).
+			fmt.Fprintf(os.Stderr, "falcosim: violation %s (x%d) did not reproduce on replay in a fresh process — not reported\n", k, f.Count)
+			unconfirmed++
+			continue
 		}
 		rf.RepoHead, rf.RepoDirty = repoHead(), repoStatus() != ""
 		path := writeReplay(rf)
@@ -486,6 +492,10 @@ func runSimCheck(id, tier string, seed uint64, p propInfo, scratch string, start
 			fmt.Println(l)
 		}
 		return 1
+	}
+	if unconfirmed > 0 {
+		fmt.Fprintf(os.Stderr, "falcosim: %d violation keys were observed but none reproduced from its tape: machinery trouble\n", unconfirmed)
+		return 2
 	}
 	return 0
 }
